@@ -77,4 +77,15 @@ PROPS = {
                        "remove_next/prev equal Spec.remove, a whole session equals the fold of Spec edits (batching unobservable); "
                        "correspondence on every cursor answer and the committed contents; sorted-vector + gap-index oracle",
     },
+    "C17": {
+        "props_module": "RedbModel.Props.C17",
+        "streams": [("catalog", [], "catalog")],
+        "rule": "cases = (a) decision table: every stored (kind, key/value pair) of 24 pairs x every requested pair x both kinds, on the write path (incl. open while still open) and the read path (typed, untyped), plus 8 pairs x 2 kinds created by redb 3.0.0 (legacy spellings) against all 24 requests; "
+                "(b) random programs over 6 names x 14 types (built-in, user-defined, colliding user/built-in names, same name with different fixed width, Option/tuple/array composites of both) x both kinds: "
+                "open (3 handle slots: open twice, reopen after drop), put/fill/del/len, drop, rename and delete by name and through the open handle, list, commit/abort, reopen, a read transaction held across a write transaction, read-back of every table, wrong-kind/wrong-type reads; "
+                "every 5th case starts from a redb-3.0.0 file; leak probes (150-500 rows of 1.5-6 KB created, modified, renamed, deleted) and delete-everything at the end of each case; distinct by hash of lines; non-trivial if the program completed",
+        "trusted_base": BASE_TRUST + ["modelled, not verified: TableNamespace/TableTreeMut (transactions.rs, table_tree.rs), InternalTableDefinition::check_match (table_tree_base.rs), TypeName and the type_name()/fixed_width() impls of the 14 types; table contents abstracted to row sets; page release judged on the implementation only"],
+        "assumptions": ["stored alignment != 1 cannot be produced through the API (modelled and proved, not exercised)", "error payloads are not compared, only the variant", "durable commits only; savepoints and storage-error poisoning out of scope"],
+        "explanation": "Lean: decision logic of open/rename/delete/list for all catalogs, names and requests; invariant (names unique and sorted, live handles name staged tables) by induction over arbitrary operation sequences; transaction atomicity. Correspondence: every answer incl. type names/widths, listings and committed contents equals the model. Oracle: BTreeMap catalog + allocated_pages() returning to its earlier level after delete+commit+drain (tolerance 2 pages)",
+    },
 }
